@@ -6,9 +6,9 @@ package main
 // quantifier), closures and small helpers returning a sum are inlined, everything else is an atom.
 
 import (
-	"regexp"
 	"fmt"
 	"go/token"
+	"regexp"
 	"sort"
 	"strings"
 
